@@ -31,7 +31,7 @@ def floors(tier):
     f = {"evaluations": 5000 if tier == "quick" else 100000}
     for fam in FAMILIES:
         f["family:" + fam] = 100
-    f.update({"fid:mixed_mixed_branch": 300, "ptrace:entangled_cases": 300, "fid:value_lt_0.99": 500,
+    f.update({"arguments:checked_unchanged": 5000, "fid:mixed_mixed_branch": 300, "ptrace:entangled_cases": 300, "fid:value_lt_0.99": 500,
               "metric_rep:pairs": 100})
     return f
 
@@ -148,8 +148,17 @@ def replay(case, ctx):
 
 
 def _call(ctx, desc, what, f, *a):
+    before = [x.copy() if isinstance(x, np.ndarray) else None for x in a]
     try:
-        return True, f(*a)
+        out = f(*a)
+        for i, (x, b) in enumerate(zip(a, before)):
+            if b is not None:
+                ctx.count("arguments:checked_unchanged")
+                if x.shape != b.shape or not np.allclose(x, b, atol=1e-12, rtol=0):
+                    ctx.violation("argument_modified_in_place", desc, {"call": what, "argument_index": i,
+                                                                        "max_abs_change": float(np.max(np.abs(x - b))) if x.shape == b.shape else "shape"},
+                                  key=f"arg_modified:{what}")
+        return True, out
     except Exception as e:  # any exception on valid density matrices refutes the property
         ctx.violation("exception:" + what, desc, {"call": what, "exception": f"{type(e).__name__}: {e}"[:300]},
                       key=f"{what}:{type(e).__name__}")
